@@ -294,5 +294,7 @@ pub fn run(tier: Tier) -> Report {
         }
     }
     rep.extra("replay_determinism_checks", json!(replays));
+    // the channel shim is the one piece of non-Similari code under the cfg: check it against real crossbeam
+    rep.extra("channel_shim_selftest", super::selftest::channel_shim_selftest(tier));
     rep
 }
